@@ -12,6 +12,7 @@ def dispatch (line : String) : String :=
   | "lineno" :: args => Lineno.handle args
   | "pyval" :: args => Pyval.handle args
   | "names" :: args => Names.handle args
+  | "schedule" :: args => Schedule.handle args
   | _ => "bad-op"
 
 partial def loop (h : IO.FS.Stream) (out : IO.FS.Stream) : IO Unit := do
